@@ -1795,6 +1795,9 @@ def C17(ctx):
             linef = "capf %s %d/%d %d %s %d" % (g.token(), tolf.numerator, tolf.denominator, miter,
                                                ";".join(",".join("%d/%d" % (f.numerator, f.denominator) for f in v) for v in vecs), seed)
             ctx.corr(linef, {"level": level})
+            if repeats > 1 and (ctx.thorough or rng.random() < 0.5):
+                # ... and with the start vectors drawn by the MODEL's generator (MT19937, Model/Shuffle.lean) from the seed
+                ctx.corr("capr %s %d/%d %d %d %d" % (g.token(), tolf.numerator, tolf.denominator, miter, repeats, seed), {"level": level})
             np.random.seed(seed)
             st, plain = proto.guarded(lambda: float(GZ.approximate_capacity(rows, repeats=repeats)), 60)
             if st != "ok" or plain != cap:
